@@ -93,7 +93,9 @@ class AgentRemovalEvent(Event):
             scope=config.scope,
             scope_instance_id=config.scope_instance_id,
             start_time_jd=datetimeToJulianDate(config.start_time),
-            end_time_jd=datetimeToJulianDate(config.end_time),
+            # [NOTE]: An agent removal is instantaneous, its interval is its instant. A configured end time would
+            #   make it relevant - and handled again - in every later timestep up to that time.
+            end_time_jd=datetimeToJulianDate(config.start_time),
             event_type=config.event_type,
             tasking_engine_id=config.tasking_engine_id,
             agent_id=config.agent_id,
